@@ -33,6 +33,7 @@ for d in sorted(glob.glob('/verif/seeded/C*-*')):
      'target_check_catches': prop in r['caught_by'],
      'first_violation_line_of_target': r['first_violation'].get(prop, '')[:600],
     }
+    if os.path.exists(d + '/not_target.md'): meta['why_the_target_check_does_not_catch_it'] = open(d + '/not_target.md').read().strip()
     if name in FIRST_PASS: meta['caught_by_target_at_first_pass(before the machinery was extended)'] = FIRST_PASS[name]
     json.dump(meta, open(d + '/meta.json', 'w'), indent=1, ensure_ascii=False)
 for d in sorted(glob.glob('/verif/refactorings/R*')):
